@@ -205,6 +205,15 @@ def tlc(module, cfg, env=None, workers=1, timeout=600, xss="1g", xmx=None, deque
                     _take(res, pending, on_tuple)
                     pending = None
                 continue
+            if line.startswith('<<"REPLAY", "') and line.endswith('">>'):
+                # fast path for the bulk of the output: one JSON string
+                payload = line[13:-3].replace('\\"', '"').replace("\\\\", "\\")
+                v = ["REPLAY", payload]
+                if on_tuple:
+                    on_tuple(v)
+                else:
+                    res.tuples.append(v)
+                continue
             if line.startswith('<<"') and line[3:4].isupper():
                 if line.count("<<") <= line.count(">>"):
                     _take(res, line, on_tuple)
